@@ -49,3 +49,10 @@ pub mod prelude {
         BranchName, ReadRepository, ReadStorage, SignRepository, WriteRepository, WriteStorage,
     };
 }
+
+/// Verification hook (off by default): makes the canonical JSON formatter reachable from the
+/// conformance harness, which is compiled with `--cfg radicle_verif`.
+#[cfg(radicle_verif)]
+pub mod verif {
+    pub use crate::canonical::formatter::CanonicalFormatter;
+}
